@@ -112,18 +112,23 @@ NTPrefix(al) == IF al = "rich"
 \* step scripts: only the last step may end the stream
 Bodies(al, maxSteps) == {<<>>} \cup {p \o <<t>> : p \in SeqsUpTo(NTPrefix(al), maxSteps - 1), t \in NT(al) \cup TT(al)}
 
-\* a stream method = frame (header kind, output columns, init logs) x kind x body
+\* a stream method = frame (header kind, output columns, init logs, where the state lives) x kind x body
 \* header: "none" | "full" (a dataclass with fields) | "empty" (a field-less dataclass: a zero-column header batch)
-Frames == { [hdr |-> "none", cols |-> "one", ilogs |-> <<>>],        [hdr |-> "full", cols |-> "one", ilogs |-> <<"INFO">>],
-            [hdr |-> "none", cols |-> "zero", ilogs |-> <<"WARN", "DEBUG">>], [hdr |-> "full", cols |-> "zero", ilogs |-> <<>>],
-            [hdr |-> "empty", cols |-> "zero", ilogs |-> <<"INFO">>] }
+\* cs:     the stream keeps its immutable half (which script, which arguments) in *call state* -- Stream(call_state=...)
+\*         with a state class that declares CALL_STATE_TYPE and receives it through bind_call_state(), as documented:
+\*         attached once on the socket transports, re-attached on every HTTP turn from the call token -- and its
+\*         return annotation is a union of two state classes (the HTTP cursor token carries the class tag)
+Frames == { [hdr |-> "none", cols |-> "one", ilogs |-> <<>>, cs |-> FALSE],       [hdr |-> "full", cols |-> "one", ilogs |-> <<"INFO">>, cs |-> FALSE],
+            [hdr |-> "none", cols |-> "zero", ilogs |-> <<"WARN", "DEBUG">>, cs |-> FALSE], [hdr |-> "full", cols |-> "zero", ilogs |-> <<>>, cs |-> FALSE],
+            [hdr |-> "empty", cols |-> "zero", ilogs |-> <<"INFO">>, cs |-> FALSE],
+            [hdr |-> "none", cols |-> "one", ilogs |-> <<>>, cs |-> TRUE] }
 Meth(kind, f, iend, ierr, res, steps) ==
-  [kind |-> kind, hdr |-> f.hdr, cols |-> f.cols, ilogs |-> f.ilogs, iend |-> iend, ierr |-> ierr, res |-> res, steps |-> steps]
+  [kind |-> kind, hdr |-> f.hdr, cols |-> f.cols, ilogs |-> f.ilogs, cs |-> f.cs, iend |-> iend, ierr |-> ierr, res |-> res, steps |-> steps]
 StreamMethods(al, maxSteps) ==
   {Meth(k, f, "ok", "", "na", b) : k \in {"prod", "exch"}, f \in Frames, b \in Bodies(al, maxSteps)}
-InitRaise == {Meth(k, [hdr |-> h, cols |-> "one", ilogs |-> il], "raise", IF h = "full" THEN "TypeError" ELSE "ValueError", "na", <<>>) :
+InitRaise == {Meth(k, [hdr |-> h, cols |-> "one", ilogs |-> il, cs |-> FALSE], "raise", IF h = "full" THEN "TypeError" ELSE "ValueError", "na", <<>>) :
                 k \in {"prod", "exch"}, h \in {"none", "full"}, il \in {<<>>, <<"INFO">>}}
-UFrame(il) == [hdr |-> "none", cols |-> "one", ilogs |-> il]
+UFrame(il) == [hdr |-> "none", cols |-> "one", ilogs |-> il, cs |-> FALSE]
 ULogs == {<<>>, <<"INFO">>, <<"DEBUG", "ERROR">>}
 \* result: "int" | "big" (a long string) | "void" (declared None) | "opt" (declared `int | None`, legitimately returns None)
 UnaryMethods == {Meth("unary", UFrame(il), "ok", "", r, <<>>) : il \in ULogs, r \in {"int", "big", "void"}}
@@ -153,8 +158,8 @@ AllDescs(al, maxSteps, maxTicks) ==
   UNION {{Desc(m, o) : o \in OpsFor(m, maxTicks)} : m \in StreamMethods(al, maxSteps) \cup InitRaise \cup UnaryMethods}
 
 \* the multi-call slice: few call descriptors, every sequence of up to MaxCalls of them
-F1 == [hdr |-> "none", cols |-> "one", ilogs |-> <<>>]
-F2 == [hdr |-> "full", cols |-> "one", ilogs |-> <<"INFO">>]
+F1 == [hdr |-> "none", cols |-> "one", ilogs |-> <<>>, cs |-> FALSE]
+F2 == [hdr |-> "full", cols |-> "one", ilogs |-> <<"INFO">>, cs |-> FALSE]
 MultiDescs == {
   Desc(Meth("unary", UFrame(<<"INFO">>), "ok", "", "int", <<>>), <<>>),
   Desc(Meth("unary", UFrame(<<>>), "raise", "ValueError", "int", <<>>), <<>>),
